@@ -236,9 +236,12 @@ fn transform_submodule(
             // The assigment of the local submodule
             let concrete_replacement_name = &typ.args[i];
 
-            // Get the concrete type, used as a replacement
-            let (concrete_replacement, replacement_deps) = nodes.get(concrete_replacement_name)
-                .expect("unreachable: parse order should guarantee, that all required modules are already parsed");
+            // Get the concrete type, used as a replacement. A generic binding of the enclosing
+            // module is not a known node: it cannot be passed on as a type argument.
+            let Some((concrete_replacement, replacement_deps)) = nodes.get(concrete_replacement_name)
+            else {
+                return Err(ErrorKind::InvalidTypStatement(typ.clone(), Vec::new()).into());
+            };
             // The replacement must be a concrete type, it cannot require type arguments itself.
             if !replacement_deps.is_empty() {
                 return Err(
